@@ -220,6 +220,7 @@ class BaseParser:
     def _resolve_forward_refs(self, local_vars, ignore_errors: bool):
         clear_refs = []
         resolved = False
+        rewritten = False
         resolved_names = []
         # todo: add resolve hooks so that application code can execute lazy-load type process logic
         try:
@@ -274,11 +275,16 @@ class BaseParser:
                 for ref in clear_refs:
                     ref.__forward_evaluated__ = False
                     ref.__forward_value__ = None
+            rewritten = True
         finally:
             # a resolved name stays listed until the fields that use it are rewritten, so that
-            # "nothing pending" means "nothing left to do" for a thread that did not take the lock
-            for name in resolved_names:
-                self.forward_refs.pop(name, None)
+            # "nothing pending" means "nothing left to do" for a thread that did not take the lock;
+            # when another reference raised, nothing was rewritten: everything stays listed and the
+            # next parse resolves it again (a ForwardRef shared with a local class may be
+            # un-evaluated in between)
+            if rewritten:
+                for name in resolved_names:
+                    self.forward_refs.pop(name, None)
         return resolved
 
     @classmethod
